@@ -216,6 +216,18 @@ fn scenario(rec: &mut Rec, name: &str, size: usize, page: usize, threads: Vec<Ve
     scenario_post(rec, name, size, page, threads, vec![])
 }
 
+/// as `scenario`, with pages marked (sequentially) before the race starts: each of them was marked once, so it may be
+/// reported once — by one harvest or at the end — and never twice
+fn scenario_pre(rec: &mut Rec, name: &str, size: usize, page: usize, pre: Vec<usize>, threads: Vec<Vec<TOp>>) -> usize {
+    PRE.with(|p| *p.borrow_mut() = pre);
+    let n = scenario_post(rec, name, size, page, threads, vec![]);
+    PRE.with(|p| p.borrow_mut().clear());
+    n
+}
+thread_local! {
+    static PRE: std::cell::RefCell<Vec<usize>> = const { std::cell::RefCell::new(Vec::new()) };
+}
+
 /// as `scenario`; when the concurrent part is over the calling thread marks the pages in `post`, one by one: a
 /// mark made after everything else has finished must be there at the end, whatever the interleaving before it was
 fn scenario_post(rec: &mut Rec, name: &str, size: usize, page: usize, threads: Vec<Vec<TOp>>, post: Vec<usize>) -> usize {
@@ -237,6 +249,10 @@ fn scenario_post(rec: &mut Rec, name: &str, size: usize, page: usize, threads: V
     }
     for order in &all {
         let bm = Arc::new(AtomicBitmap::new(size, NonZeroUsize::new(page).unwrap()));
+        let pre: Vec<usize> = PRE.with(|p| p.borrow().clone());
+        for p in &pre {
+            bm.set_bit(*p);
+        }
         let res = run_schedule(bm.clone(), &threads, order.clone());
         for p in &post {
             bm.set_addr_range(p * page, 1);
@@ -259,6 +275,22 @@ fn scenario_post(rec: &mut Rec, name: &str, size: usize, page: usize, threads: V
                 }
             }
         }
+        // a page marked once before the race is reported once: by a harvest or at the end, not both (nor by two harvests)
+        for p in &pre {
+            let mut times = end.contains(p) as usize;
+            for (tid, rs) in res.iter().enumerate() {
+                let mut k = 0;
+                for op in &threads[tid] {
+                    if let TOp::Harvest = op { times += pages_of(&rs[k]).contains(p) as usize; k += 1; } else if let TOp::CloneB = op { k += 1; }
+                }
+            }
+            if times > 1 && !marked.contains(p) {
+                rec.fail("C08", &format!("{}/mark-reported-twice", name), &format!("page={} times={} order={:?}", p, times, order));
+            }
+            if times == 0 && !cleared.contains(p) {
+                rec.fail("C08", &format!("{}/lost-mark", name), &format!("page={} (marked before the race) order={:?}", p, order));
+            }
+        }
         // no mark lost: every marked page is harvested, still set, or was explicitly cleared
         for p in &marked {
             if !harvested.contains(p) && !end.contains(p) && !cleared.contains(p) {
@@ -267,7 +299,7 @@ fn scenario_post(rec: &mut Rec, name: &str, size: usize, page: usize, threads: V
         }
         // no phantom: nothing reported or left that nobody marked
         for p in harvested.iter().chain(end.iter()).chain(seen_by_clone.iter()) {
-            if !marked.contains(p) && !post.contains(p) {
+            if !marked.contains(p) && !post.contains(p) && !pre.contains(p) {
                 rec.fail("C08", &format!("{}/phantom", name), &format!("page={} order={:?}", p, order));
             }
         }
@@ -316,6 +348,9 @@ pub fn run(rec: &mut Rec, rng: &mut Rng, n_random: usize, thorough: bool) {
     total += scenario_post(rec, "mark-vs-harvest-then-mark-again", 128, 1, vec![vec![TOp::SetBit(5)], vec![TOp::Harvest]], vec![5]);
     total += scenario_post(rec, "markrange-vs-harvest-then-mark-again", 128, 1, vec![vec![TOp::Mark(5, 1)], vec![TOp::Harvest]], vec![5, 6]);
     total += scenario_post(rec, "mark-vs-clear-then-mark-again", 128, 1, vec![vec![TOp::Mark(5, 1)], vec![TOp::Clear(5, 1)]], vec![5]);
+    total += scenario(rec, "markrange-vs-clear-of-its-first-page", 128, 1, vec![vec![TOp::Mark(4, 2)], vec![TOp::Clear(4, 1)], vec![TOp::Harvest]]);
+    total += scenario_pre(rec, "dirty-neighbour-then-mark-vs-harvest", 128, 1, vec![9], vec![vec![TOp::SetBit(10)], vec![TOp::Harvest]]);
+    total += scenario_pre(rec, "dirty-neighbour-then-markrange-vs-harvest", 128, 1, vec![2], vec![vec![TOp::Mark(9, 2)], vec![TOp::Harvest]]);
     total += scenario(rec, "two-harvests", 128, 1, vec![vec![TOp::Mark(10, 2)], vec![TOp::Harvest], vec![TOp::Harvest]]);
     if thorough {
         total += scenario(rec, "T-markrange-vs-markrange-vs-harvest", 192, 1, vec![vec![TOp::Mark(62, 4)], vec![TOp::Mark(64, 3)], vec![TOp::Harvest]]);
